@@ -428,30 +428,49 @@ func historySpace(thorough bool) kit.Space {
 			if !c.canon {
 				return kit.Outcome{OK: true, Class: "non-canonical"}
 			}
-			vals := []hvalue{historyValue(c.v)}
-			if c.kind != 0 {
-				vals = append(vals, otherValue(c.kind, vals[0]))
-			}
+			input := func() string { return describe(c) }
+			// baseline: every operation of the history on fresh values. A failure
+			// here is not a matter of history and gets the plain key.
 			for j, op := range c.ops {
-				v := vals[c.targets[j]]
-				class, det := runOp(v, op)
-				if class == "" {
-					continue
+				fresh := []hvalue{historyValue(c.v)}
+				if c.kind != 0 {
+					fresh = append(fresh, otherValue(c.kind, fresh[0]))
 				}
-				input := func() string { return describe(c) }
-				if j == 0 {
+				v := fresh[c.targets[j]]
+				if class, det := runOp(v, op); class != "" {
 					method := "LookupFunc"
 					if op >= 9 {
 						method = "Lookup"
 					}
-					return fail(v.typ, method, class, input, det)
+					return fail(v.typ, method, class, func() string { return v.desc + "." + opString(op) + " (on a fresh value)" }, det)
 				}
-				where := "same-value"
-				if c.targets[j] != c.targets[j-1] {
-					where = otherNames[c.kind]
+			}
+			vals := []hvalue{historyValue(c.v)}
+			if c.kind != 0 {
+				vals = append(vals, otherValue(c.kind, vals[0]))
+			}
+			earlier := "Lookup"
+			for j, op := range c.ops {
+				v := vals[c.targets[j]]
+				class, det := runOp(v, op)
+				if class != "" {
+					what := "LookupFunc"
+					if op >= 9 {
+						what = "Lookup"
+					}
+					where := "the same value"
+					if c.kind != 0 {
+						where = "two values (" + otherNames[c.kind] + ")"
+					}
+					return kit.Outcome{Key: fmt.Sprintf("history|%s-behaves-differently-than-on-a-fresh-value-after-%s", what, earlier), Class: "fail", Nontrivial: true,
+						Detail: "input " + input() + fmt.Sprintf("\noperation %d (on %s) passes on a fresh value but after the earlier operations: %s: %s", j+1, where, class, det)}
 				}
-				return kit.Outcome{Key: fmt.Sprintf("history|%s-after-%s|%s|%s", opClass(op), opClass(c.ops[j-1]), where, class), Class: "fail", Nontrivial: true,
-					Detail: "input " + describe(c) + fmt.Sprintf("\noperation %d behaves differently than on a fresh value: %s", j+1, det)}
+				switch {
+				case op >= 1 && op <= 8:
+					earlier = "an-interrupted-LookupFunc"
+				case op == 0 && earlier == "Lookup":
+					earlier = "a-complete-LookupFunc"
+				}
 			}
 			cl := "history:one-value"
 			if c.kind != 0 {
